@@ -165,6 +165,8 @@ def build(src: str, name: str, site: dict, where: str) -> tuple[ast.FunctionDef,
         for s in _flatten(f.body):
             if target == "return" and isinstance(s, ast.Return) and s.value is not None:
                 found.append((s, s.value))
+            elif target == "iftest" and isinstance(s, ast.If) and ast.unparse(s.test).startswith(site["startswith"]):
+                found.append((s, s.test))          # the condition of the `if` whose source text starts with `startswith`
             elif isinstance(s, ast.Assign) and len(s.targets) == 1 and ast.unparse(s.targets[0]) == target:
                 found.append((s, s.value))
             elif (isinstance(s, ast.Assign) and len(s.targets) == 1 and isinstance(s.targets[0], ast.Tuple)
@@ -178,7 +180,7 @@ def build(src: str, name: str, site: dict, where: str) -> tuple[ast.FunctionDef,
     if len(found) <= nth:
         raise SiteError(where, f"assignment #{nth} to `{target}` not found ({len(found)} found)")
     stmt, rhs = found[nth]
-    seg = ast.get_source_segment(src, stmt) or ast.unparse(stmt)
+    seg = (ast.unparse(rhs) if target == "iftest" else (ast.get_source_segment(src, stmt) or ast.unparse(stmt)))
     expr = _peel(rhs, site.get("peel", []), where)
     rn = _Rename(site.get("rename", {}))
     expr = rn.visit(copy.deepcopy(expr))
